@@ -575,7 +575,7 @@ func parses(src string) bool {
 
 // Run is the C16 check.
 func Run(c *core.Ctx) {
-	c.Rule = "case = one .templ file followed through versions T0..Tn (n<=4) by the real FSEventHandler(devMode) in-process; per version: dev-mode bytes == normal bytes of the binary built from it (clause 1, x 6 argument vectors); per window of edits all classified GoUpdated=false: old binary + new text file == fresh build (clause 2). Groups: matrix = every ordered pair of 11 expression positions x 3 expression types whose T compiles; hostile = static text classes x positions; random = seeded programs + edit catalogue. non-trivial = (T,T') windows classified 'no recompilation', distinct by source hash"
+	c.Rule = "case = one .templ file followed through versions T0..Tn (n<=4) by the real FSEventHandler(devMode) in-process; per version: dev-mode bytes == normal bytes of the binary built from it (clause 1, x 6 argument vectors); per window of edits all classified GoUpdated=false: old binary + new text file == fresh build (clause 2). Groups: matrix = every ordered pair of 12 expression positions x 5 expression types whose T compiles, + 13 control-flow structure witnesses; hostile = static text classes x positions; random = seeded programs + edit catalogue. non-trivial = (T,T') windows classified 'no recompilation', distinct by source hash"
 	c.Assume("text-file and template mtimes are set explicitly to strictly increasing instants in 2001, so the runtime's 'modified <100ms ago' cache shortcut never applies; behaviour inside that 100ms window is not examined")
 	c.Assume("rendered bytes and the presence of a render error are compared, not error messages (they carry source positions)")
 	txtRoot := corpus.Scratch("c16txt")
@@ -597,14 +597,14 @@ func Run(c *core.Ctx) {
 	}
 
 	matrixFailed := map[string]bool{}
-	nBatches := c.Pick(1, 10)
+	nBatches := c.Pick(1, 30)
 	for bi := 0; bi < nBatches; bi++ {
 		var cases []*tcase
 		id := 0
 		name := func(p string) string { id++; return fmt.Sprintf("%s%04d", p, id) }
 		if bi == 0 {
 			// ---- matrix: every ordered pair of positions, every expression type whose T compiles
-			for _, ty := range []struct{ ty, e string }{{"string", "a.S"}, {"url", "a.U"}, {"script", "a.CS"}, {"component", "comp(a.S)"}} {
+			for _, ty := range []struct{ ty, e string }{{"string", "a.S"}, {"url", "a.U"}, {"script", "a.CS"}, {"component", "comp(a.S)"}, {"const", `"color:red"`}} {
 				g := &gen{}
 				for _, p1 := range positions {
 					if !accepts(p1, ty.ty) {
